@@ -249,6 +249,15 @@ impl<K, V> EntryPtr<K, V> {
     }
 }
 
+#[cfg(lru_mem_verif)]
+impl<K, V> EntryPtr<K, V> {
+
+    /// The raw address this pointer holds, for structural snapshots.
+    pub(crate) fn addr(&self) -> usize {
+        self.ptr as usize
+    }
+}
+
 #[cfg(test)]
 mod tests {
 
